@@ -31,7 +31,7 @@ def main(argv=None):
     signal.signal(signal.SIGPROF, core._on_alarm)
     if args.replay:
         return replay(driver, prop, args.replay)
-    run = core.Run(prop, tier, seed, level=getattr(driver, "LEVEL", "model_checking"))
+    run = core.Run(prop, tier, seed, level=getattr(driver, "LEVEL", "model_checking"), reduced_pass=getattr(driver, "REDUCED_PASS", True))
     try:
         return driver.explore(run)
     except core.MachineryError as e:
